@@ -158,7 +158,7 @@ class C12(Sim):
     PROBES = ["zero_vector", "point_box", "empty_box", "empty_intersection", "infinite_box", "raising_call",
               "errmode_nondefault", "errmode_flip", "shared_array_boxes", "pad_aliased_box", "boundary_point", "contained_point",
               "outside_point", "degenerate_triangle", "parallel_lines", "parallel_vectors", "inplace_normalize", "mesh_box",
-              "tiny_scale", "huge_scale", "same_array_twice", "needle_corner", "integer_vector_rotated"]
+              "tiny_scale", "huge_scale", "same_array_twice", "needle_corner", "integer_vector_rotated", "mesh_vertex_moved"]
     QUICK_RUNS = 8000
     THOROUGH_RUNS = 1000000
     BLOCK = 100
@@ -609,6 +609,11 @@ class C12(Sim):
         if kind == "inf":
             return {"op": "box_inf", "id": k, "dim": d}
         if kind == "mesh":
+            if r.chance(0.4):
+                # the caller moves a vertex of ITS mesh (same vertex count): a later box of the mesh must be tight again
+                i = r.below(len(self.mesh_snap))
+                e = self.cfg["e0"]
+                return {"op": "move_mesh_vertex", "i": i, "p": [self._gen_comp(r) * 10.0 ** e * r.choice([1.0, 3.0]) for _ in range(3)]}
             return {"op": "box_mesh", "id": k, "pad": 0.0 if r.chance(0.8) else 10.0 ** self.cfg["e0"]}
         return {"op": "box_from", "id": k, "b": [r.choice(sorted(self.box))]}
 
@@ -920,6 +925,8 @@ class C12(Sim):
             return False
         if op == "box_mesh" and self.mesh is None:
             return False
+        if op == "move_mesh_vertex":
+            return self.mesh is not None and ev["i"] < len(self.mesh_snap)
         if ev.get("bad"):
             return True
         return self._dims_ok(ev)
@@ -933,6 +940,11 @@ class C12(Sim):
         if op == "new_arr":
             self._add_array(ev["id"], ev["vals"])
             return list(self.arr[ev["id"]].shape)
+        if op == "move_mesh_vertex":
+            self.mesh.vertices[ev["i"]] = self.Vec(np.array(ev["p"], dtype=float))
+            self.mesh_snap = self._read_mesh()
+            self.probes["mesh_vertex_moved"] += 1
+            return "moved"
         if op == "seterr":
             np.seterr(**ev["mode"])
             self.env = dict(ev["mode"])
